@@ -235,7 +235,31 @@ def solve_text(task):
     return _race(task["name"], None, task["text"], z3_only=task.get("z3_only", False), budgets=task)
 
 
+CONFIRM_T = 20
+
+
 def _race(name, qtext, qf_builder, z3_only=False, budgets=None):
+    """portfolio (see _race0) + second opinion: a proof found by z3 alone on a quantifier-free text is handed to cvc5
+    as well.  cvc5 `unsat` = confirmed; cvc5 `sat` = disagreement (checker error, exit 3); cvc5 undecided within its
+    budget = the proof rests on z3 alone and is counted as such in the evidence (backend `z3-only`)."""
+    out = _race0(name, qtext, qf_builder, z3_only=z3_only, budgets=budgets)
+    if out.get("verdict") == "unsat" and out.get("backend") == "z3" and out.get("text") and not z3_only:
+        j = Cvc5Job(out["text"], (budgets or {}).get("confirm_t", CONFIRM_T), "cvc5")
+        try:
+            v = j.wait()
+        finally:
+            j.close()
+        out.setdefault("trail", []).append(("cvc5-confirm", v, round(time.time() - j.t0, 3)))
+        if v == "unsat":
+            out["backend"] = "z3+cvc5"
+        elif v == "sat":
+            out.update(verdict="disagree", backend="z3/cvc5")
+        else:
+            out["backend"] = "z3-only"
+    return out
+
+
+def _race0(name, qtext, qf_builder, z3_only=False, budgets=None):
     budgets = budgets or {}
     out = {"name": name}
     trail = []
@@ -258,13 +282,8 @@ def _race(name, qtext, qf_builder, z3_only=False, budgets=None):
                            ninst=0, gen_time=0.0, text=None)
                 return out
             jq.close()
-            # ---- stage A2: the same quantified text to z3 (E-matching differs from cvc5's); only `unsat` is used
-            r = run_z3_cli(qtext, budgets.get("zq_fast", 4))
-            trail.append(("z3-q", r[0], round(r[1], 3)))
-            if r[0] == "unsat":
-                out.update(verdict="unsat", backend="z3-q", time=time.time() - t_start, model=None, trail=trail,
-                           ninst=0, gen_time=0.0, text=None)
-                return out
+            # (z3 is NOT given the quantified form: z3 4.8.12 and 5.1.0 both answer `unsat` on a satisfiable set of
+            #  quantified hypotheses over Seq String - see DESIGN.md A.9 and tests/z3_unsound_quantified_seq.smt2)
             jq = Cvc5Job(qtext, budgets.get("q_slow", Q_SLOW), "cvc5-q")
             jobs.append(jq)
         # ---- stage B: quantifier-free form
@@ -303,7 +322,7 @@ def _race(name, qtext, qf_builder, z3_only=False, budgets=None):
             # regular-language obligations: z3 only, as a killable process
             r = run_z3_cli(qf_text, budgets.get("z3_cli_t", 120))
             trail.append(("z3-cli", r[0], round(r[1], 3)))
-            out.update(verdict=r[0], backend="z3", time=time.time() - t_start, model=r[2], trail=trail,
+            out.update(verdict=r[0], backend="z3-regex", time=time.time() - t_start, model=r[2], trail=trail,
                        reason=r[3], ninst=ninst, gen_time=gen, text=qf_text)
             return out
         r = run_z3(qf_text, budgets.get("z3_quick", Z3_QUICK))
